@@ -236,8 +236,8 @@ def mutate(rng, f, st, others):
     return bytes(f), "anybyte"
 
 
-def legacy_frames():
-    """valid v0.5/v0.6/v0.7 frames embedded in tests/legacy.c"""
+def legacy_frames(versions=(0x25, 0x26, 0x27)):
+    """valid legacy frames embedded in tests/legacy.c (default: v0.5/v0.6/v0.7; 0x24 = the v0.4 frame)"""
     try:
         src = open(os.path.join(core.REPO, "tests", "legacy.c")).read()
         i = src.index("const char* const COMPRESSED =")
@@ -257,7 +257,7 @@ def legacy_frames():
         pos = [m.start() for m in re.finditer(rb"[\x24-\x28]\xb5\x2f\xfd", bytes(b))] + [len(b)]
         out = []
         for a, z in zip(pos, pos[1:]):
-            if b[a] in (0x25, 0x26, 0x27):
+            if b[a] in versions:
                 out.append(bytes(b[a:z]))
         return out
     except (OSError, ValueError):
@@ -527,6 +527,20 @@ def make_cases(ctx, rng, cd, witnesses, gdict):
     for mode in (0, 1, 2, 3):
         for _ in range(2 if quick else 12):
             add("C", b"", "copydctx:%d" % mode, dict_=gd, cap=1024, flags=str(mode))
+    # round 3: who owns the current dictionary of a context - histories of create / load / refPrefix / refDDict / clear / use / free / ZSTD_copyDCtx on
+    # three contexts (model coq/Safety/DictOwner.v; finding C03-copydctx-ddict-pointer-into-source, fixed 555a48a)
+    progs = ["n1,n2,l1,c21,f1,u2", "n1,n2,p1,c21,l1,u2", "n1,n2,l1,c21,u2,u1,f2,u1", "n1,n2,r10,c21,f1,u2", "n1,n2,l2,l1,c21,f1,u2,x2,u2",
+             "n1,n2,n3,l1,c21,c32,f1,f2,u3", "n1,n2,p1,c21,u1,u2,u2", "n1,n2,l1,l2,c12,u1,f2,u1", "n1,n2,n3,r11,c21,l1,c31,x1,u2,u3,f1,u3"]
+    for _ in range(14 if quick else 120):
+        ops, live = ["n1", "n2"] + (["n3"] if rng.random() < 0.5 else []), None
+        for _ in range(rng.randrange(4, 14)):
+            k = rng.choice("llprxuuuufccccn")
+            a, b = rng.choice("123"), rng.choice("123")
+            ops.append(k + a + (b if k == "c" else rng.choice("01") if k == "r" else ""))
+        ops.append("u" + rng.choice("123"))
+        progs.append(",".join(ops))
+    for pr in progs:
+        add("O", b"", "dictowner:" + pr, dict_=gd, cap=1024, flags=pr)
     # (5) legacy frames v0.5 - v0.7 (sanitizer only)
     leg = legacy_frames()
     ctx.notes["legacy_frames"] = len(leg)
@@ -541,6 +555,11 @@ def make_cases(ctx, rng, cd, witnesses, gdict):
             rle = mg + bytes([0x80 | (n >> 16), (n >> 8) & 255, n & 255, 0x41]) + bytes.fromhex("c00000")
             add("L", rle, "legacy-oversize-rle", cap=n + 16)
     add("L", bytes.fromhex("27b52ffd007aa612b07cc93b12"), "legacy-oversize-rle", cap=400000)
+    # round 3: a COMPRESSED legacy block that regenerates more than 128 KiB (one sequence: match-length code 52 + 16 extra bits = 131074): the bound counted
+    # 128 KiB for it and the one-shot decoders had no Block_Maximum_Size limit (fixed 39f3df0: refused now).  Oracle BOUND<OUT of the harness.
+    add("L", bytes.fromhex("27b52ffd0000" "00000a" + BIGMATCH_BODY + "c00000"), "legacy-bigmatch:v0.7", cap=400000)
+    add("L", bytes.fromhex("26b52ffd00" "00000a" + BIGMATCH_BODY + "c00000"), "legacy-bigmatch:v0.6", cap=400000)
+    add("L", bytes.fromhex("27b52ffd0000" "00000a" + "c141" "0154010234" "fcff04" + "c00000"), "legacy-bigmatch-exact128k:v0.7", cap=400000)    # 1 + 131071 bytes: the limit itself, accepted
     for fr in leg:
         add("L", fr, "legacy-valid", cap=4096)
         # round 2: legacy frames decoded with a dictionary (any bytes, any length: shorter than a magic number, shorter than the
@@ -798,7 +817,7 @@ def debug_pass(ctx, defs, cases):
     """thorough tier: every case once more through an ASan build with -DDEBUGLEVEL=1 (assert() enabled): an assertion of lib/ that hostile
     bytes (or a legal call history of the harness) can falsify aborts the process in such builds - a call that does not return."""
     exe = core.build_harness("c03_fuzz", ["c03_fuzz.c"], variant="asan", extra_defs=["-DDEBUGLEVEL=1"], extra_flags=list(defs))
-    sub = [c for c in cases if c["cmd"] in ("F", "L", "D", "B", "K", "C")]
+    sub = [c for c in cases if c["cmd"] in ("F", "L", "D", "B", "K", "C", "O")]
     t0 = time.time()
     out, crashes = run_lines(exe, [case_line(c) for c in sub] + ["A a"])
     core.log("assert-enabled asan harness: %d cases in %.1fs (%d aborts)" % (len(sub), time.time() - t0, len(crashes)))
@@ -810,6 +829,93 @@ def debug_pass(ctx, defs, cases):
         ctx.violation(dict(kind="fuzz", line=line[:1200000], origin=c["origin"] if c else "probe", rc=rc, variant="asan-debuglevel1", report=err[-2500:]),
                       what="decoder harness (ASan build with -DDEBUGLEVEL=1) aborted on a %s input (rc=%d): %s" % (c["origin"] if c else "O1 probe", rc, summ[:400]))
     ctx.notes["assert_enabled_variant"] = dict(cases=len(sub), aborts=len(crashes))
+
+
+LEGACY14_DEFS = ["-UZSTD_LEGACY_SUPPORT", "-DZSTD_LEGACY_SUPPORT=1"]
+BIGMATCH_BODY = "c141" "0154010234" "ffff04"    # RLE literals 1 x 'A'; 1 sequence, LL/OF/ML tables in RLE mode: LL code 1, offset code 2, ML code 52 + 0xFFFF -> 131075 bytes
+
+
+def legacy14_cases(ctx, rng):
+    """round 3: the decoders of v0.1 - v0.4, which the default build (ZSTD_LEGACY_SUPPORT=5) does not contain.  Valid frames: the v0.4 frame of
+    tests/legacy.c and its transplants to v0.3 / v0.2 (same block format, no windowLog byte); hand-made raw / RLE / empty frames of the four
+    versions; raw blocks above 128 KiB (7727820: the bound counts them); mutations; v0.4 with raw-content dictionaries."""
+    quick = ctx.quick
+    cases = []
+
+    def add(data, origin, dict_=None, cap=4096):
+        cases.append(dict(id="q%d" % len(cases), cmd="L", flags="-", dict=dict_, data=data, cap=cap, seed=rng.randrange(1 << 30), origin=origin, base=None))
+    MAG = {1: bytes.fromhex("fd2fb51e"), 2: bytes.fromhex("22b52ffd"), 3: bytes.fromhex("23b52ffd"), 4: bytes.fromhex("24b52ffd")}
+    valid = []
+    for fr in legacy_frames((0x24,)):
+        valid.append((4, fr))
+        valid.append((3, MAG[3] + fr[5:]))
+        valid.append((2, MAG[2] + fr[5:]))
+    ctx.notes["legacy14_valid_frames"] = len(valid)
+    for v, fr in valid:
+        add(fr, "legacy14-valid:v0.%d" % v)
+    for v in (1, 2, 3, 4):
+        hdr = MAG[v] + (b"\x0a" if v == 4 else b"")
+        add(hdr + bytes.fromhex("400005") + b"hello" + bytes.fromhex("c00000"), "legacy14-raw:v0.%d" % v)
+        add(hdr + bytes.fromhex("400000") + bytes.fromhex("400003") + b"abc" + bytes.fromhex("c00000"), "legacy14-emptyraw:v0.%d" % v)
+        add(hdr + bytes.fromhex("80000941") + bytes.fromhex("c00000"), "legacy14-rle:v0.%d" % v)
+        add(hdr + bytes.fromhex("c00000"), "legacy14-empty:v0.%d" % v)
+        add(hdr, "legacy14-headeronly:v0.%d" % v)
+        for n in (131073, 200000):
+            add(hdr + bytes([0x40 | (n >> 16), (n >> 8) & 255, n & 255]) + bytes(rng.randrange(256) for _ in range(64)) * (n // 64) + bytes(n % 64) + bytes.fromhex("c00000"),
+                "legacy14-oversize-raw:v0.%d" % v, cap=n + 16)
+    for v, fr in valid:
+        for dl in (1, 3, 4, 8, 40, 300):
+            add(fr, "legacy14-dict:%d" % dl, dict_=rng.randbytes(dl))
+        for i in range(100 if quick else 1500):
+            b = bytearray(fr)
+            r = rng.random()
+            if r < 0.12:
+                b = b[:rng.randrange(len(b))]
+            else:
+                for _ in range(rng.choice([1, 1, 2, 4])):
+                    q = rng.random()
+                    j = rng.randrange(4, min(len(b), 40)) if q < 0.35 else rng.randrange(max(4, len(b) - 16), len(b)) if q < 0.75 else rng.randrange(4, len(b))
+                    b[j] = mut_byte(rng, b[j])
+            add(bytes(b), "legacy14-mut:v0.%d" % v, cap=rng.choice([4096, 4096, 100, 0]), dict_=(rng.randbytes(rng.choice([2, 9, 200])) if rng.random() < 0.2 else None))
+    return cases
+
+
+def legacy14_pass(ctx, defs):
+    """the same harness linked with a library built with ZSTD_LEGACY_SUPPORT=1 (ASan+UBSan): v0.1 - v0.4 frames through the one-shot decoder, the
+    DDict / multi-DDict paths, two streaming segmentations (v0.4; v0.1-v0.3 have no streaming decoder) and the inspectors."""
+    exe = core.build_harness("c03_fuzz", ["c03_fuzz.c"], variant="asan", extra_defs=LEGACY14_DEFS, extra_flags=list(defs))
+    rng = random.Random(ctx.seed * 7919 + 14)
+    cases = legacy14_cases(ctx, rng)
+    t0 = time.time()
+    out, crashes = run_lines(exe, [case_line(c) for c in cases])
+    core.log("legacy v0.1-v0.4 harness (asan, ZSTD_LEGACY_SUPPORT=1): %d cases in %.1fs (%d crashes)" % (len(cases), time.time() - t0, len(crashes)))
+    byid = {c["id"]: c for c in cases}
+    for line, rc, err in crashes:
+        cid = line.split(" ")[1] if " " in line else "?"
+        c = byid.get(cid)
+        summ = " ".join(re.findall(r"(ERROR: AddressSanitizer[^\n]*|SUMMARY:[^\n]*|runtime error:[^\n]*)", err)[:3]) or err[-300:]
+        ctx.violation(dict(kind="fuzz", line=line[:1200000], origin=c["origin"] if c else "?", rc=rc, variant="asan-legacy1", report=err[-2500:]),
+                      what="decoder harness (ASan build with ZSTD_LEGACY_SUPPORT=1) died on a %s input (rc=%d): %s" % (c["origin"] if c else "?", rc, summ[:400]))
+    nacc = 0
+    for c in cases:
+        if c["id"] not in out:
+            continue
+        fd = fields(out[c["id"]])
+        fl = fd.get("flags", "-")
+        if fl != "-":
+            ctx.violation(replay_of(c, flags=fl, result=out[c["id"]][:600], variant="asan-legacy1"),
+                          what="decoder oracle failed on a %s input (ZSTD_LEGACY_SUPPORT=1 build): %s" % (c["origin"], fl))
+        one = fd.get("one", "")
+        nacc += one.startswith("OK")
+        o = c["origin"].split(":")[0]
+        if o in ("legacy14-valid", "legacy14-raw", "legacy14-oversize-raw", "legacy14-empty") and not one.startswith("OK"):
+            ctx.violation(replay_of(c, result=out[c["id"]][:400], variant="asan-legacy1"),
+                          what="a valid %s frame is refused by ZSTD_decompress in the ZSTD_LEGACY_SUPPORT=1 build: %s" % (c["origin"], one[:80]))
+        if o == "legacy14-valid" and one.startswith("OK") and fd.get("dctx") != "OK:239":
+            ctx.violation(replay_of(c, result=out[c["id"]][:400], variant="asan-legacy1"),
+                          what="the %s frame of tests/legacy.c decodes to %s instead of the 239 expected bytes" % (c["origin"], one[:40]))
+        ctx.count(("legacy14", o, one[:2], fd.get("strm", "")[:2]), nontrivial=True)
+    ctx.notes["legacy14"] = dict(cases=len(cases), accepted_one_shot=nacc, crashes=len(crashes))
 
 
 def msan_key(c, err):
@@ -892,6 +998,55 @@ def check_ctx_pointers(ctx, model_exe, items, variant):
     ctx.notes["ctx_pointer_traces"] = dict(total=len(items), private=n_ok)
 
 
+def check_dict_owner(ctx, model_exe, items, variant):
+    """O cases: ddictLocal / ddict / dictUses of the three contexts after every operation of the history must be what the model with the repaired
+    ZSTD_copyDCtx says (DictOwner.dstep true, proved: no frame dereferences a released DDict, for every history); a use must succeed exactly when the
+    model hands the frame a dictionary.  The verbatim-copy model names the finding."""
+    if not items:
+        return
+    lines = []
+    for c, tr, n in items:
+        for m in ("fixed", "asis"):
+            lines.append("O %s/%s %s %s" % (c["id"], m, m, c["flags"]))
+    res = {}
+    for l in run_model(model_exe, lines):
+        t = l.split(" ")
+        if len(t) >= 3 and t[0] == "O":
+            res[t[1]] = t[2]
+    n_ok = n_use = 0
+    for c, tr, n in items:
+        real = [x for x in tr.split(";") if x]
+        st_real = [x.split("=")[0] for x in real]
+        mods = {}
+        for m in ("fixed", "asis"):
+            mods[m] = [x for x in res.get(c["id"] + "/" + m, "").split(";") if x]
+        st_fixed = [x.split("=")[0] for x in mods["fixed"]]
+        st_asis = [x.split("=")[0] for x in mods["asis"]]
+        ctx.count(("dictowner", len(real)), nontrivial=True)
+        if st_real == st_fixed:
+            n_ok += 1
+            bad = None
+            for r, m in zip(real, mods["fixed"]):
+                if "=" in m and "=" in r:        # (a use of a context that does not exist is no operation on both sides)
+                    n_use += 1
+                    want_dict = not m.endswith("=none")
+                    got = r.split("=", 1)[1] if "=" in r else "?"
+                    if "FREED" in m or (want_dict and got != "OK:%s" % n) or (not want_dict and not got.startswith("E:")):
+                        bad = (r, m)
+                        break
+            if bad:
+                ctx.violation(replay_of(c, what="dictowner-use", observed=tr, model_fixed=";".join(mods["fixed"]), variant=variant),
+                              what="dictionary ownership (history %s): a frame decoded with result %s where the model hands it %s" % (c["flags"], bad[0], bad[1]))
+        elif st_real == st_asis:
+            ctx.violation(replay_of(c, what="dictowner", observed=tr, model_fixed=";".join(mods["fixed"]), variant=variant),
+                          what="ZSTD_copyDCtx (history %s): the copy's current dictionary is a DDict the source context owns (%s; repaired copy: %s)" % (c["flags"], tr, ";".join(mods["fixed"])),
+                          key="C03-copydctx-ddict-pointer-into-source")
+        else:
+            ctx.violation(replay_of(c, what="dictowner", observed=tr, model_fixed=";".join(mods["fixed"]), model_aswritten=";".join(mods["asis"]), variant=variant),
+                          what="dictionary fields of a context (history %s): %s follows neither the ownership model (%s) nor the verbatim copy (%s)" % (c["flags"], tr, ";".join(mods["fixed"]), ";".join(mods["asis"])))
+    ctx.notes["dict_owner_traces"] = dict(total=len(items), as_model=n_ok, uses_checked=n_use)
+
+
 def has_empty_op(prog):
     return any(t in ("i0", "z") for t in prog.split(","))
 
@@ -906,6 +1061,8 @@ def crash_key(c, err):
         return "C03-block-api-empty-insertblock-loses-prefix"
     if c["cmd"] == "C" and "cmd_C" in err:
         return "C03-copydctx-table-pointers-into-source"
+    if c["cmd"] == "O" and "cmd_O" in err and "heap-use-after-free" in err:
+        return "C03-copydctx-ddict-pointer-into-source"
     return None
 
 
@@ -934,7 +1091,7 @@ def evaluate(ctx, cd, model_exe, cases, out, crashes, npmax, variant):
         core.log("R on %d frame-level cases: %.1fs" % (len(rin), time.time() - t0))
     else:
         mres = getattr(ctx, "c03_R", {})
-    hist, perm, wd_items, rg_items, pathdiff, k_items, c_items = {}, {}, [], [], [], [], []
+    hist, perm, wd_items, rg_items, pathdiff, k_items, c_items, o_items = {}, {}, [], [], [], [], [], []
     stricter, sites, stricter_ex, okmut = 0, {}, {}, 0
     for c in cases:
         if c["id"] not in out:
@@ -955,6 +1112,11 @@ def evaluate(ctx, cd, model_exe, cases, out, crashes, npmax, variant):
             k_items.append((c, fd.get("ops", "-"), fd.get("cs", "-")))
         if c["cmd"] == "C" and variant == "asan" and "pt" in fd:
             c_items.append((c, fd["pt"]))
+        if c["origin"].startswith("legacy-bigmatch-exact128k") and not fd.get("dctx", "").startswith("OK:131072"):
+            ctx.violation(replay_of(c, result=out[c["id"]][:400], variant=variant),
+                          what="a legacy frame whose compressed block regenerates exactly 128 KiB (the limit itself) is refused: %s" % fd.get("dctx", "")[:60])
+        if c["cmd"] == "O" and variant == "asan" and "tr" in fd:
+            o_items.append((c, fd["tr"], fd.get("n", "0")))
         if c["cmd"] != "F":
             one = fd.get("one", fd.get("blk", ""))
             ctx.count((c["cmd"], c["origin"].split("/")[0], one[:2], fd.get("ddict", "")[:8], fd.get("c3", "")[:4]), nontrivial=True)
@@ -1031,6 +1193,7 @@ def evaluate(ctx, cd, model_exe, cases, out, crashes, npmax, variant):
         check_watchdog(ctx, model_exe, wd_items, npmax)
         check_continuity(ctx, model_exe, k_items, variant)
         check_ctx_pointers(ctx, model_exe, c_items, variant)
+        check_dict_owner(ctx, model_exe, o_items, variant)
         ctx.notes["ring_traces"] = check_ring(ctx, model_exe, rg_items)
         ctx.notes["origins"] = hist
         ctx.notes["permissive_cases"] = perm
@@ -1472,6 +1635,8 @@ def run(ctx):
             vexe, vname = exe, "asan"
             if rp.get("variant") == "msan":
                 vexe, vname = (build_msan_harness(defs) or exe), "msan"
+            elif rp.get("variant") == "asan-legacy1":
+                vexe, vname = core.build_harness("c03_fuzz", ["c03_fuzz.c"], variant="asan", extra_defs=LEGACY14_DEFS, extra_flags=list(defs)), "asan-legacy1"
             elif rp.get("variant") == "asan-debuglevel1":
                 vexe, vname = core.build_harness("c03_fuzz", ["c03_fuzz.c"], variant="asan", extra_defs=["-DDEBUGLEVEL=1"], extra_flags=list(defs)), "asan-debuglevel1"
             out, crashes = run_lines(vexe, [line], nproc=1)
@@ -1508,6 +1673,7 @@ def run(ctx):
     evaluate(ctx, cd, model_exe, cases, out, crashes, npmax, "asan")
     ctx.notes["cases"] = len(cases)
     msan_pass(ctx, defs, cases, out)
+    legacy14_pass(ctx, defs)
 
     # the witnesses must be rejected by every decoding path of the real code, except the documented one-shot cases
     for c in cases:
